@@ -73,6 +73,7 @@ def main():
         elif args[i] == "--seeded": seeded = True; i += 1
         elif args[i] == "--tier": tier = args[i+1]; i += 2
         else: print(__doc__); return 2
+    ALL = ["C%02d" % k for k in range(1, 20)]
     items = []
     if seeded:
         sd = os.path.join(V, "seeded")
@@ -89,7 +90,6 @@ def main():
     if only:
         items = [x for x in items if only in x[0]]
     if all_props:
-        ALL = ["C%02d" % k for k in range(1, 20)]
         items = [(n, p, ALL) for (n, p, _) in items]
     q = queue.Queue()
     for it in items:
